@@ -5,6 +5,7 @@ from ..mexp import MExpander
 from ..symx import TupleV, ListV
 from ..ncf import M
 from .. import ncf
+from .common import U
 from ..report import Ob
 
 REL = "inference/gp/regression.py"
@@ -28,7 +29,7 @@ def gp_expander(prog, scalar_mean=True):
     state = {"q": []}      # query arguments of the cross-covariance calls seen so far
 
     def hook(e, node, env):
-        f = ast.unparse(node.func)
+        f = U(node.func)
         if f == "self.cov.build_covariance":
             return M.atom("Kd", 2, True)
         if f == "self.cov.covariance_and_gradients":
@@ -38,7 +39,7 @@ def gp_expander(prog, scalar_mean=True):
         if f == "self.mean.mean_and_gradients":
             return TupleV([M.atom("m", 1), ListV([M.atom("dm", 1)])])
         if f == "self.cov" and len(node.args) == 3:
-            a, b = ast.unparse(node.args[0]), ast.unparse(node.args[1])
+            a, b = U(node.args[0]), U(node.args[1])
             if b == "self.x":
                 # the query argument of the cross-covariance names the point(s) this prediction is for
                 state['q'].append(a)
@@ -51,12 +52,12 @@ def gp_expander(prog, scalar_mean=True):
                 return M.atom(f"Kqq<{a}>", 2, True)
             return M.atom(f"K({a},{b})", 2)
         if f == "self.mean" and len(node.args) == 2:
-            a = ast.unparse(node.args[0])
+            a = U(node.args[0])
             if state['q'] and a != state['q'][-1]:
                 return M.atom(f"mq<{a}>", 0 if scalar_mean else 1)
             return M.atom("mq", 0 if scalar_mean else 1)
         if f == "array" and node.args and isinstance(node.args[0], ast.ListComp) \
-                and ast.unparse(node.args[0].elt).startswith("self.mean("):
+                and U(node.args[0].elt).startswith("self.mean("):
             return M.atom("mq", 1)
         if f == "self.process_points":
             return M.atom("P", 2)
